@@ -15,7 +15,7 @@ ASSUMPTIONS = ['inputs inside the documented domain (tmin<tmax, disjoint existin
 BUDGET = {'quick': 150, 'thorough': 1200}
 CHUNK = {'quick': 40, 'thorough': 200}
 START_PREDS = {'row0_counts', 'statuses_at_tmin', 'recovered_history', 'recovered_node_infected'}
-REQUIRED = ['contract_evaluations', 'row_moves_checked', 'extinction_checked'] + ['calls:' + s for s in simreg.ALL_SIMS]
+REQUIRED = ['contract_evaluations', 'row_moves_checked', 'extinction_checked', 'repo_sweep_tests_under_contracts'] + ['calls:' + s for s in simreg.ALL_SIMS]
 MINE = lambda pred: pred not in START_PREDS
 
 
@@ -32,7 +32,45 @@ def gen_cases(tier, seed):
             ks = len(c['spec']['statuses'])
             c['return_idx'] = sorted(r.sample(range(ks), r.randint(1, ks)))
         out.append(c)
+    # the repository's own sweep tests (2500-node grid, tuple labels) with the contracts switched on
+    for name in SWEEP_TESTS:
+        out.append({'kind': 'repo_sweep', 'test': name, 'sim': 'repo_sweep', 'seed': case_seed(seed, PID, name)})
     return out
+
+
+SWEEP_TESTS = ['test_Gillespie_SIS_type', 'test_Gillespie_SIS_sweep_gamma', 'test_Gillespie_SIR_sweep_gamma', 'test_fast_SIS_sweep_gamma', 'test_fast_SIR_sweep_gamma',
+               'test_Gillespie_SIS_sweep_tau', 'test_Gillespie_SIR_sweep_tau', 'test_fast_SIS_sweep_tau', 'test_fast_SIR_sweep_tau', 'test_basic_discrete_SIS_sweep_p',
+               'test_basic_discrete_SIR_sweep_p']
+
+
+def run_repo_sweep(case, res):
+    import importlib, io, contextlib
+    contracts.install()
+    contracts.drain()
+    contracts.CONTEXT.update({'complex_moves': None, 'statuses_cover_all': True, 'positive_recovery': None, 'distinct_times': True})
+    simcase.seed_all(case['seed'])
+    before = sum(contracts.EVALS.values())
+    try:
+        mod = importlib.import_module('EoN.tests.test_sim_sweep_parameters')
+        with contextlib.redirect_stdout(io.StringIO()):
+            getattr(mod.TestSimSweepParameters(), case['test'])()
+    except Exception as e:
+        viol(res, 'repo_sweep|%s|exception:%s' % (case['test'], simcase.exc_key(e)), {'err': repr(e)[:200]})
+        contracts.drain()
+        return
+    n = sum(contracts.EVALS.values()) - before
+    bump(res, 'contract_evaluations', n)
+    bump(res, 'repo_sweep_tests_under_contracts')
+    for fname, mode, pred, detail in contracts.drain():
+        if pred == 'monitor_error':
+            raise RuntimeError('contract monitor error: %r' % (detail,))
+        if MINE(pred):
+            d = dict(detail)
+            d['test'] = case['test']
+            viol(res, '%s|%s|%s' % (fname, mode, pred), d)
+    if n:
+        res['nontrivial'] = 'repo_sweep:' + case['test']
+        res['sample'] = {'kind': 'repo_sweep', 'test': case['test'], 'contract_evaluations': n}
 
 
 def input_class(case):
@@ -79,6 +117,9 @@ def run_monitored(case, res, mine, keyfmt=None):
 
 def run_case(case):
     res = new_result()
+    if case.get('kind') == 'repo_sweep':
+        run_repo_sweep(case, res)
+        return res
     call, out, err = run_monitored(case, res, MINE)
     if err is not None:
         viol(res, '%s|%s|exception:%s' % (case['sim'], ('full' if case.get('full') else 'arrays') + ('+R0' if case.get('R0') else ''),
